@@ -1053,13 +1053,21 @@ func split(str, sep string) (Vector, error) {
 }
 
 func rename_keys(data, alternative HashMap) (HashMap, error) {
+	// as in Clojure: first drop every renamed key, then add the renamed entries,
+	// so that the result does not depend on map iteration order
 	output := map[string]MalType{}
 	for k, v := range data.Val {
-		newKey, ok := alternative.Val[k]
-		if ok {
-			output[newKey.(string)] = v
-		} else {
+		if _, renamed := alternative.Val[k]; !renamed {
 			output[k] = v
+		}
+	}
+	for k, v := range data.Val {
+		if newKey, renamed := alternative.Val[k]; renamed {
+			newKeyStr, ok := newKey.(string)
+			if !ok {
+				return HashMap{}, fmt.Errorf("rename-keys: new key must be a string or keyword (it was %T)", newKey)
+			}
+			output[newKeyStr] = v
 		}
 	}
 	return HashMap{
